@@ -19,7 +19,7 @@ RULE = (
     "the grid > 1e-2)"
 )
 ASSUMPTIONS = [
-    "mass: |I_h - 1| <= 5e-3 + 4|I_h - I_2h| with the resolution term itself <= 2e-2 (else the state is reported unresolved, never passed)",
+    "mass: |I_h - 1| <= 5e-3 + 4*res, res = max(|I_h - I_2h|, |I_2h - I_4h|), with res itself <= 2e-2 (else the state is reported unresolved, never passed)",
     "sampler: fixed key from VERIF_SEED; 1-D: N=2e5, DKW bound for alpha=1e-9 plus 2e-3 quadrature slack; 2-D: N=2e5, chi-square over cells with expected count >= 40, threshold chi2.isf(1e-9, dof) + 5 sqrt(dof)",
     "this bounds the discrepancy between sampler and density by the quadrature resolution and the power of N draws; it is not a proof of distributional equality",
 ]
@@ -29,7 +29,7 @@ DKW = float(np.sqrt(np.log(2 / 1e-9) / (2 * N1)))
 
 def bounds(tier):
     return {"factories": "8 configs x invert T/F x cond None/2 x 2 conditions", "levels": [1] if tier == "quick" else [1, 2],
-            "grid_2d": 501 if tier == "quick" else 801, "grid_1d": 40001, "one_d": "14 scalar expressions x levels {1,2}", "N": N1,
+            "grid_2d": 501 if tier == "quick" else 1201, "grid_1d": 40001, "one_d": "14 scalar expressions x levels {1,2}", "N": N1,
             "exhaustive_within_bounds": True}
 
 
@@ -110,8 +110,11 @@ def run_case(case):
             dens = np.where(np.isfinite(dens), dens, 0.0)
             I_h = float(np.trapezoid(dens * jac, u))
             I_2h = float(np.trapezoid((dens * jac)[::2], u[::2]))
+            I_4h = float(np.trapezoid((dens * jac)[::4], u[::4]))
             tr += 1
-            res = abs(I_h - I_2h)
+            # densities of piecewise maps (leaky-relu planar, spline ends) have jumps: successive differences are erratic,
+            # so the resolution term is the LARGER of the two successive differences
+            res = max(abs(I_h - I_2h), abs(I_2h - I_4h))
             digest.update(np.ascontiguousarray(dens[::400]).tobytes())
             ld_span = float(np.nanmax(np.abs(np.diff(np.log(np.maximum(dens[dens > 1e-200], 1e-300))))) if (dens > 1e-200).sum() > 2 else 0.0)
             nt += 1
@@ -138,7 +141,7 @@ def run_case(case):
         # BNAF's inverted LeakyTanh tails stretch by ~100x per layer: a gentler parameter state keeps the mass on a resolvable grid
         dist = c01.build_factory(case["factory"], case["invert"], case["cond"], seed, case["level"], scale=0.15 if case["factory"] == "bnaf" else 0.5, layers=1 if case["factory"] == "bnaf" else 2)
         conds = [None] if case["cond"] is None else [jnp.asarray([0.5, -1.0]), jnp.asarray([-2.0, 1.5])]
-        G = (501 if case["tier"] == "quick" else 801)
+        G = (501 if case["tier"] == "quick" else 1201)
         if fi.num_inv:
             G = 601 if case["tier"] == "quick" else 901  # one bisection search per grid point
         elif case["factory"] == "bnaf":
@@ -167,9 +170,10 @@ def run_case(case):
             ax = ug  # all quadrature below is done in the (u, v) coordinates; samples are mapped with arcsinh
             I_h = float(np.trapezoid(np.trapezoid(dens, ax, axis=1), ax))
             I_2h = float(np.trapezoid(np.trapezoid(dens[::2, ::2], ax[::2], axis=1), ax[::2]))
+            I_4h = float(np.trapezoid(np.trapezoid(dens[::4, ::4], ax[::4], axis=1), ax[::4]))
             tr += 1
             nt += 1
-            res = abs(I_h - I_2h)
+            res = max(abs(I_h - I_2h), abs(I_2h - I_4h))
             digest.update(np.ascontiguousarray(dens[::30, ::30]).tobytes())
             if np.isnan(lp).any():
                 add("nan-logprob", f"{tag}: NaN log_prob on the grid")
